@@ -240,8 +240,8 @@ fn make_fault(rng: &mut Rng, spec: &SpecTable, tier: Tier) -> Option<(Vec<u8>, F
                 }
                 e.bytes[a.off + a.id_len..a.data_start()].copy_from_slice(&enc::size_vint(new_size, a.size_len));
                 let (m, op) = before_split(&e, xi);
-                // the size the error carries is the child's declared size, 0 for an unknown-size child
-                return Some((e.bytes, FaultInfo { class, off: el.off, id: el.id, size: el.size.unwrap_or(0) as usize, parent: el.parent.map(|p| e.layout.elems[p].id), before_mandatory: m, before_optional: op }, MaxSz::Limit(1 << 20)));
+                // the size the error carries is the child's declared size; what it says for an unknown-size child is not compared
+                return Some((e.bytes, FaultInfo { class, off: el.off, id: el.id, size: el.size.map_or(usize::MAX, |s| s as usize), parent: el.parent.map(|p| e.layout.elems[p].id), before_mandatory: m, before_optional: op }, MaxSz::Limit(1 << 20)));
             }
             let cands: Vec<usize> = (0..e.layout.elems.len()).filter(|i| {
                 let el = &e.layout.elems[*i];
@@ -425,8 +425,15 @@ impl Check for C13 {
                     Class::O => ErrV::OversizedChild { pos: f.off, id: f.id, size: f.size },
                     Class::S => ErrV::InvalidTagSize { pos: f.off, id: f.id, size: f.size },
                 };
+                // what the property fixes is the kind, the offset and the offending id; the parent a hierarchy error
+                // names and the size an overrun error gives for an unknown-size child are not compared
+                let same = |e: &ErrV| match (e, &want) {
+                    (ErrV::Hierarchy { found: a, .. }, ErrV::Hierarchy { found: b, .. }) => a == b,
+                    (ErrV::OversizedChild { pos: p1, id: i1, size: s1 }, ErrV::OversizedChild { pos: p2, id: i2, size: s2 }) => p1 == p2 && i1 == i2 && (s1 == s2 || *s2 == usize::MAX),
+                    (x, y) => x == y,
+                };
                 match r.first_error() {
-                    Some(e) if *e == want => {}
+                    Some(e) if same(e) => {}
                     Some(e) if e.kind() == f.class.kind() => fail!("error-fields", "expected {} but got {}; {}", want.short(), e.short(), ctx),
                     other => fail!("error-kind", "expected {} as first error but got {:?}; {}", want.short(), other.map(|e| e.short()), ctx),
                 }
